@@ -190,7 +190,7 @@ PROPS['C01'] = {
              {'name': 'clang', 'flavour': 'clang-asan', 'driver': 'drv_c01', 'env': {'PV_SCALE': '15'}, 'shards': 6},
              {'name': 'native', 'flavour': 'asan-native', 'driver': 'drv_c01', 'env': {'PV_SCALE': '10'}, 'shards': 4},
              {'name': 'asan-dbg', 'flavour': 'asan-dbg', 'driver': 'drv_c01', 'env': {'PV_SCALE': '10'}, 'shards': 4}],
-    'require': {'concurrent.roundtrips_equal_model': 15000, 'auto.ok': 50000, 'auto.mult_lang': 100, 'ambiguous.constructed': 500, 'roundtrip.how.created': 5000, 'roundtrip.how.crypted': 5000, 'axes.cases': 3000, 'second_generation.ok': 100000, 'roundtrip.decodes_with_failing_allocator': 5000},
+    'require': {'concurrent.roundtrips_equal_model': 15000, 'auto.ok': 50000, 'auto.mult_lang': 100, 'ambiguous.constructed': 500, 'roundtrip.how.created': 5000, 'roundtrip.how.crypted': 5000, 'original_seed_observed.crypted': 4000, 'original_seed_observed.created': 4000, 'axes.cases': 3000, 'second_generation.ok': 100000, 'roundtrip.decodes_with_failing_allocator': 5000},
 }
 MANIFEST_TEXT['C01'] = {'technique': 'runtime monitoring: encode/decode round trips observed through every seed observer vs reference model (ASan/UBSan, NDEBUG and assertion-enabled builds)',
     'text': 'Seeds (boundary-biased and random; created, loaded or encrypted) are encoded in every language for boundary and random coins under all 8 enabled-feature masks, compared with the model phrase, and decoded by both decoders; the result is compared through store bytes, birthday, all feature masks, encrypted flag and the full PBKDF2 argument list. Auto-detection must return the same seed and language or MULT_LANG exactly when the model matcher finds a second recognising language; ambiguous phrases are constructed for every overlapping language pair. Every coin, birthday and feature value is visited at least once. A clang-built stripe of the same workload guards against compiler-dependent behaviour. Every decoded seed is encoded again (same and another language, same and another coin) and that second-generation phrase must equal the model\'s and decode again. A last section repeats round trips from 8 threads at once (yields inside the dependency callbacks). A sample of the round trips decodes the own phrase with the allocator armed (the only error allowed is MEMORY); a stripe runs on a library built with -funsigned-char.',
@@ -443,3 +443,12 @@ for _p, _t in _LATE.items():
     MANIFEST_TEXT[_p]['text'] = MANIFEST_TEXT[_p]['text'].rstrip() + _t
 for _p in ('C01', 'C02', 'C03', 'C04', 'C05', 'C06', 'C07', 'C08', 'C09', 'C10', 'C12', 'C13', 'C14', 'C16', 'C17'):
     MANIFEST_TEXT[_p]['text'] += ' One stripe links the static library produced by the project\'s own CMake build (its flags, definitions and source list).'
+
+# fourteenth wave: what was added (appended to the manifest texts), and the minima that go with it
+_W14 = {
+ 'C01': ' The seed that is handed to encode is itself observed through every observer and must equal the abstract value its phrase carries (a seed with stray bits a phrase cannot carry would otherwise come back "different" unnoticed).',
+ 'C06': ' Seeds reached by other paths than load/create (restored from a phrase, encrypted and decrypted again, stored encrypted then loaded and decrypted, encrypted once) must store to the canonical image of their abstract value and load again.',
+}
+for _p, _t in _W14.items():
+    MANIFEST_TEXT[_p]['text'] = MANIFEST_TEXT[_p]['text'].rstrip() + _t
+PROPS['C06'].setdefault('require', {}).update({'roundtrip.path.crypt-twice': 3000, 'roundtrip.path.decoded': 3000, 'roundtrip.path.decrypted-copy': 3000, 'roundtrip.path.encrypted-once': 3000})
